@@ -93,13 +93,20 @@ type C15SchedCase struct {
 	N         int        `json:"clients"`
 	Ops       [][]string `json:"ops"`
 	SharedIDs bool       `json:"shared_request_ids,omitempty"`
+	SameHost  bool       `json:"same_host,omitempty"` // all sessions use one host name (one issuer) instead of one each
+	SameSP    bool       `json:"same_sp,omitempty"`   // all clients are browsers of one service provider and user
 	Schedule  []int      `json:"schedule"`
 	// Faults[i]: storage operation -> fault kind, for every call session i makes
 	Faults []map[string]string `json:"faults,omitempty"`
-	// CancelAt[i] > 0: the i-th session's user agent goes away (request context cancelled) when the session parks for the n-th time
-	CancelAt []int `json:"cancel_at,omitempty"`
+	// CancelOn[i] != "": the i-th session's user agent goes away (request context cancelled) while the provider is about to do
+	// that thing for it ("storage:<operation>" or "write"), the first time it gets there
+	CancelOn []string `json:"cancel_on,omitempty"`
 	// Stalled >= 0: that session's user agent stops reading: its writes are held until every other session has finished
 	Stalled int `json:"stalled"`
+	// Slow >= 0: the storage is slow for that session at SlowAt ("storage:<operation>"): the session stays parked there while any
+	// other session can still move (then it goes on: others may legitimately wait for a storage call that is shared)
+	Slow   int    `json:"slow"`
+	SlowAt string `json:"slow_at,omitempty"`
 }
 
 var c15SchedOps = []string{"cb-done-post", "cb-done-post", "cb-done-redirect", "cb-done-redirect", "cb-pending", "sso", "flow-post", "flow-redirect", "logout", "attrquery", "metadata", "certificate"}
@@ -108,7 +115,7 @@ var c15SchedFaults = [][2]string{{"GetResponseSigningKey", "error"}, {"GetRespon
 	{"GetEntityByID", "error"}, {"GetEntityIDByAppID", "error"}, {"AuthRequestByID", "error"}, {"CreateAuthRequest", "timeout"}, {"GetMetadataSigningKey", "error"}, {"SetUserinfoWithLoginName", "error"}}
 
 func genC15SchedCase(t *rapid.T) C15SchedCase {
-	c := C15SchedCase{N: rapid.SampledFrom([]int{2, 2, 3, 3, 4}).Draw(t, "clients"), SharedIDs: rapid.Bool().Draw(t, "sharedids"), Stalled: -1}
+	c := C15SchedCase{N: rapid.SampledFrom([]int{2, 2, 3, 3, 4}).Draw(t, "clients"), SharedIDs: rapid.Bool().Draw(t, "sharedids"), SameHost: rapid.Bool().Draw(t, "samehost"), SameSP: rapid.IntRange(0, 2).Draw(t, "samesp") == 0, Stalled: -1, Slow: -1}
 	// sessions tend to do the same kind of thing at the same time: that is when shared state is contended
 	common := rapid.SampledFrom(c15SchedOps).Draw(t, "commonop")
 	for i := 0; i < c.N; i++ {
@@ -128,14 +135,27 @@ func genC15SchedCase(t *rapid.T) C15SchedCase {
 			f[p[0]] = p[1]
 		}
 		c.Faults = append(c.Faults, f)
-		ca := 0
-		if rapid.IntRange(0, 5).Draw(t, "cancelled") == 0 {
-			ca = rapid.IntRange(1, 6).Draw(t, "cancelat")
+		ca := ""
+		if rapid.IntRange(0, 4).Draw(t, "cancelled") == 0 {
+			ca = rapid.SampledFrom([]string{"storage:GetEntityByID", "storage:GetEntityByID", "storage:GetResponseSigningKey", "storage:GetResponseSigningKey", "storage:SetUserinfoWithUserID", "storage:AuthRequestByID", "storage:CreateAuthRequest",
+				"storage:GetEntityIDByAppID", "storage:SetUserinfoWithLoginName", "storage:GetMetadataSigningKey", "write"}).Draw(t, "cancelon")
 		}
-		c.CancelAt = append(c.CancelAt, ca)
+		c.CancelOn = append(c.CancelOn, ca)
 	}
 	if rapid.IntRange(0, 3).Draw(t, "stall") == 0 {
 		c.Stalled = rapid.IntRange(0, c.N-1).Draw(t, "stalled")
+	}
+	if rapid.Bool().Draw(t, "slowstorage") {
+		// the classic trigger of shared-state defects: one session is slow at one point while the others pass it; what happens
+		// to that session there (nothing, a failure, its user agent going away) must stay its own business
+		c.Slow = rapid.IntRange(0, c.N-1).Draw(t, "slow")
+		c.SlowAt = "storage:" + rapid.SampledFrom([]string{"GetEntityByID", "GetResponseSigningKey", "SetUserinfoWithUserID", "AuthRequestByID", "CreateAuthRequest", "GetEntityIDByAppID", "SetUserinfoWithLoginName", "GetMetadataSigningKey"}).Draw(t, "slowat")
+		switch rapid.IntRange(0, 2).Draw(t, "slowfate") {
+		case 1:
+			c.CancelOn[c.Slow] = c.SlowAt
+		case 2:
+			c.Faults[c.Slow] = map[string]string{strings.TrimPrefix(c.SlowAt, "storage:"): rapid.SampledFrom([]string{"error", "timeout", "nil", "mismatch"}).Draw(t, "slowfault")}
+		}
 	}
 	c.Schedule = rapid.SliceOfN(rapid.IntRange(0, 7), 0, 60).Draw(t, "schedule")
 	return c
@@ -144,7 +164,7 @@ func genC15SchedCase(t *rapid.T) C15SchedCase {
 // impaired: the session's own replies are not held to the "must succeed" oracles (a fault was injected into it, it was
 // cancelled, or its user agent stalled); isolation, panics and ID uniqueness still apply to it.
 func (c C15SchedCase) impaired(i int) bool {
-	return len(c.Faults[i]) > 0 || c.CancelAt[i] > 0
+	return len(c.Faults[i]) > 0 || c.CancelOn[i] != ""
 }
 
 var c15KeepWhenImpaired = map[string]bool{"C15/panic": true, "C15/foreign-session-data": true, "C15/duplicate-id": true, "C15/id-not-ncname": true, "C15/success-for-pending-request": true, "C15/user-data-for-pending-request": true}
@@ -166,7 +186,7 @@ func c15SchedRun(c C15SchedCase) ([]*ev.Violation, *c15Collect, []string) {
 		i := i
 		ctx, cancel := context.WithCancel(context.WithValue(context.Background(), schedKey{}, i))
 		s.cancels[i] = cancel
-		per[i] = &c15Collect{ids: map[string]string{}, byOp: map[string]int{}}
+		per[i] = &c15Collect{ids: map[string]string{}, byOp: map[string]int{}, sameHost: c.SameHost || c.SameSP, sameSP: c.SameSP}
 		wg.Add(1)
 		go func() {
 			defer wg.Done()
@@ -223,12 +243,12 @@ func (s *sched) run(c C15SchedCase) *ev.Violation {
 		for _, p := range s.parked {
 			parkedTasks[p.task] = true
 		}
-		// cancellations fall due when a session has parked often enough
-		for i, at := range c.CancelAt {
-			if at > 0 && !cancelled[i] && s.nparks[i] >= at {
-				cancelled[i] = true
-				s.cancels[i]()
-				s.trace = append(s.trace, fmt.Sprintf("cancel %d", i))
+		// cancellations fall due when the session is parked at the named point
+		for _, p := range s.parked {
+			if on := c.CancelOn[p.task]; on != "" && on == p.where && !cancelled[p.task] {
+				cancelled[p.task] = true
+				s.cancels[p.task]()
+				s.trace = append(s.trace, fmt.Sprintf("cancel %d", p.task))
 			}
 		}
 		// candidates: parked requests, except the writes of the stalled session while others are still at work
@@ -244,6 +264,18 @@ func (s *sched) run(c C15SchedCase) *ev.Violation {
 				continue
 			}
 			cand = append(cand, p)
+		}
+		// the slow session is passed over while anybody else can move
+		if c.Slow >= 0 {
+			var others []*parkT
+			for _, p := range cand {
+				if !(p.task == c.Slow && p.where == c.SlowAt) {
+					others = append(others, p)
+				}
+			}
+			if len(others) > 0 {
+				cand = others
+			}
 		}
 		quiescent := len(parkedTasks) == alive
 		s.mu.Unlock()
@@ -336,7 +368,7 @@ func TestC15Sched(t *testing.T) {
 			if len(c.Faults[i]) > 0 {
 				nf++
 			}
-			if c.CancelAt[i] > 0 {
+			if c.CancelOn[i] != "" {
 				nc++
 			}
 		}
@@ -349,7 +381,7 @@ func TestC15Sched(t *testing.T) {
 		}
 		col.Count("scheduled/requests", cc.requests)
 		col.Count("scheduled/releases", len(trace))
-		col.Case(switches >= 2, ev.Fingerprint("sched", c.N, shape, nf, nc, c.Stalled >= 0, c.SharedIDs, switches/4), []string{fmt.Sprintf("scheduled/clients/%d", c.N), fmt.Sprintf("scheduled/faulty-sessions/%d", nf), fmt.Sprintf("scheduled/cancelled-sessions/%d", nc), fmt.Sprintf("scheduled/stalled=%v", c.Stalled >= 0), fmt.Sprintf("scheduled/shared-ids=%v", c.SharedIDs)}, func() any {
+		col.Case(switches >= 2, ev.Fingerprint("sched", c.N, shape, nf, nc, c.Stalled >= 0, c.SharedIDs, c.SameHost, c.SameSP, c.SlowAt, switches/4), []string{fmt.Sprintf("scheduled/clients/%d", c.N), fmt.Sprintf("scheduled/faulty-sessions/%d", nf), fmt.Sprintf("scheduled/cancelled-sessions/%d", nc), fmt.Sprintf("scheduled/stalled=%v", c.Stalled >= 0), fmt.Sprintf("scheduled/shared-ids=%v", c.SharedIDs), fmt.Sprintf("scheduled/same-host=%v", c.SameHost), fmt.Sprintf("scheduled/same-sp=%v", c.SameSP), "scheduled/slow-at/" + c.SlowAt}, func() any {
 			return map[string]any{"case": c, "trace": strings.Join(trace, " ")}
 		})
 		return vs
